@@ -100,6 +100,19 @@ pub fn menu(quick: bool) -> Vec<(String, LmSpec)> {
             sense: Sense::Min,
         },
     ));
+    // an integer column whose range lies away from zero, next to knapsacks whose first incumbent is not optimal
+    for (lo, hi) in [(100, 101), (-101, -100), (7, 9)] {
+        for n in [4usize, 6] {
+            let mut vars = bools(n);
+            vars.push(("k".into(), Dom::Int(lo, hi)));
+            let mut wc = w[..n].to_vec();
+            wc.push(0.0);
+            let mut vc = v[..n].to_vec();
+            vc.push(1.0);
+            let tot: f64 = w[..n].iter().sum();
+            out.push((format!("knapsack-n{n}-plus-int({lo},{hi})"), LmSpec { vars, rows: vec![row(&wc, Rel::Le, (tot / 2.0).floor(), "cap")], obj: vc, offset: 0.0, sense: Sense::Max }));
+        }
+    }
     // unbounded through a continuous variable
     out.push((
         "unbounded-mixed".into(),
